@@ -159,7 +159,7 @@ be_pair_transfer(struct bufferevent *src, struct bufferevent *dst,
 
 	if (dst->wm_read.high) {
 		dst_size = evbuffer_get_length(dst->input);
-		if (dst_size < dst->wm_read.high) {
+		if (dst_size < dst->wm_read.high && !ignore_wm) {
 			n = dst->wm_read.high - dst_size;
 			evbuffer_remove_buffer(src->output, dst->input, n);
 		} else {
